@@ -20,5 +20,8 @@ MC_Strat    == CanStrat
 MC_StratManual == [CanStrat EXCEPT !.cMode = "manual", !.cDuration = -1, !.cNoRestarts = -1]
 \* auto-fail at the first restart: the failure / rollback paths are reached with one environment disturbance
 MC_StratFailFast == [CanStrat EXCEPT !.afMaxRestarts = 0]
+MC_OldDS == "old"
+\* the same strategy without the canary block (rolling update only)
+MC_StratRollout == [CanStrat EXCEPT !.canary = FALSE]
 MC_StratPct == [CanStrat EXCEPT !.cReplicas = IP(50, TRUE)]
 =============================================================================
